@@ -60,6 +60,45 @@ def r1_trace(ctx, F, vb):
     # #[trace(unsafe_ignore)] leaves an empty trace for a value-bearing field: covered by the rule above.
 
 
+def r1b_dead_temporaries(ctx, F):
+    """A trace call relocates the values inside its receiver. If the receiver is a by-value copy on the stack
+    (not storage reached through self) the relocated pointers must be written back: the temporary has to be used
+    after the call. A traced temporary that is dead afterwards means the original still points into the old arena."""
+    n = 0
+    for f in F.fns.values():
+        if f.crate not in ("starlark", "starlark_map"):
+            continue
+        for c in f.calls:
+            if c.bb in f.cleanup or c.indirect or not c.args:
+                continue
+            if not re.search(r"Trace<'v>>::trace$|values::trace::Trace::trace$", c.name):
+                continue
+            r = re.sub(r"^(move|copy) ", "", c.args[0])
+            ds = [st for st in f.stmts if st.lhs == r]
+            if not ds or ds[0].kind != "refmut":
+                continue
+            place = ds[0].ops[0]
+            base = place.split(".", 1)[0]
+            ty = f.locals.get(base, "")
+            if ".*" in place or ty.startswith("&") or ty.startswith("*"):
+                continue  # storage reached through a reference: traced in place
+            if 0 < int(base[1:]) <= f.nargs:
+                continue  # by-value parameter: the caller's business
+            n += 1
+            after = f.after(c.bb)
+            used = any(st.bb in after and base in re.findall(r"_\d+", st.text()) for st in f.stmts) or any(
+                c2.bb in after and c2 is not c and any(base in re.findall(r"_\d+", a) for a in c2.args)
+                for c2 in f.calls) or base == "_0"
+            tf = top_fn(F, f)
+            ctx.check(used, "C03.R1b", "traced-temporary:" + re.sub(r"::<[^>]*>", "", tf.qpath),
+                      "the traced stack copy is written back / used after the trace call",
+                      "trace is invoked on a by-value temporary (%s: %s) that is never used afterwards: the relocated "
+                      "value is discarded and the original storage keeps pointing into the old arena"
+                      % (base, ty[:60]), fn=f, line=c.line)
+    ctx.info["trace_calls_on_stack_copies"] = n
+    ctx.floor("C03.R1b", "trace calls on stack copies", n, 1)
+
+
 def r2_roots(ctx, F, vb):
     ev = F.one(r"starlark::eval::runtime::evaluator::Evaluator::<'v, 'a, 'e>::trace$")
     adt = F.adt(r"^starlark::eval::runtime::evaluator::Evaluator$")
@@ -282,6 +321,7 @@ def run(ctx):
     F = ctx.facts("core")
     vb = ValueBearing(F)
     r1_trace(ctx, F, vb)
+    r1b_dead_temporaries(ctx, F)
     r2_roots(ctx, F, vb)
     r3_points(ctx, F)
     r4_copy(ctx, F)
